@@ -1,5 +1,5 @@
 (** C14: the endpoint model [Model/TcpclSess.v] negotiates its session
-    parameters correctly and keeps its keepalive and idle timers armed. *)
+    settings correctly and keeps its keepalive and idle timers armed. *)
 From Coq Require Import ZArith NArith List Bool Lia ZifyBool ZifyN ZifyNat Arith.
 From RecordUpdate Require Import RecordSet.
 From DTN Require Import Lib.Bytes Model.TcpclMsg Model.TcpclSess Proofs.TcpclSessBasics
@@ -154,7 +154,7 @@ Proof. intros c ops. destruct (neg_run c ops) as [A B C D]. rewrite cf_run in D.
 
 (** Counterexamples for the statements without the node-id hypothesis: a
     SESS_INIT whose node id does not decode sets [in_sess] and [sessinit_peer]
-    but raises before the parameters are merged. *)
+    but raises before the negotiated values are merged. *)
 Definition cfg_p : cfg := mkCfg true [97] 30 60 1000 500 None.
 Definition ops_bad_nodeid : list op :=
   [OStart; ORx (MAGIC ++ [4; 0]); ORx (encode_msg (MSessInit 20 400 1000 [200] []))].
@@ -318,7 +318,7 @@ Proof.
 Qed.
 
 (** ** 14c: the keepalive timer is armed for one interval after the last send
-    (after the parameter merge, which re-arms it, if that came later) *)
+    (after the merge of the negotiated values, which re-arms it, if that came later) *)
 Theorem keepalive_armed : forall c ops,
   let s := run c ops in
   closed s = false -> 0 < keepalive_time s ->
